@@ -437,33 +437,33 @@ Qed.
 Lemma dig_a : forall a, byte a -> Z.land (Z.shiftr a 2) 63 = a / 4.
 Proof.
   intros a Ha. assert (H : forallb (fun a => Z.land (Z.shiftr a 2) 63 =? a / 4) (zrange 256) = true) by (vm_compute; reflexivity).
-  pose proof (forallb_zrange 256 _ H a Ha). cbv beta in *. lia.
+  pose proof (forallb_zrange 256 _ H a Ha) as Hq. clear H. cbv beta in Hq. apply Z.eqb_eq in Hq. exact Hq.
 Qed.
 Lemma dig_ab : forall a b, byte a -> byte b -> Z.land (Z.lor (Z.shiftl a 4) (Z.shiftr b 4)) 63 = (a mod 4) * 16 + b / 16.
 Proof.
   intros a b Ha Hb.
   assert (H : forallb (fun a => forallb (fun b => Z.land (Z.lor (Z.shiftl a 4) (Z.shiftr b 4)) 63 =? (a mod 4) * 16 + b / 16)
                 (zrange 256)) (zrange 256) = true) by (vm_compute; reflexivity).
-  pose proof (forallb_zrange2 256 256 _ H a b Ha Hb). cbv beta in *. lia.
+  pose proof (forallb_zrange2 256 256 _ H a b Ha Hb) as Hq. clear H. cbv beta in Hq. apply Z.eqb_eq in Hq. exact Hq.
 Qed.
 Lemma dig_bc : forall b c, byte b -> byte c -> Z.land (Z.lor (Z.shiftl b 2) (Z.shiftr c 6)) 63 = (b mod 16) * 4 + c / 64.
 Proof.
   intros a b Ha Hb.
   assert (H : forallb (fun a => forallb (fun b => Z.land (Z.lor (Z.shiftl a 2) (Z.shiftr b 6)) 63 =? (a mod 16) * 4 + b / 64)
                 (zrange 256)) (zrange 256) = true) by (vm_compute; reflexivity).
-  pose proof (forallb_zrange2 256 256 _ H a b Ha Hb). cbv beta in *. lia.
+  pose proof (forallb_zrange2 256 256 _ H a b Ha Hb) as Hq. clear H. cbv beta in Hq. apply Z.eqb_eq in Hq. exact Hq.
 Qed.
 Lemma dig_c : forall c, byte c -> Z.land c 63 = c mod 64.
 Proof. intros. change 63 with (2 ^ 6 - 1). rewrite land_low by lia. reflexivity. Qed.
 Lemma dig_a_tail : forall a, byte a -> Z.land (Z.shiftl a 4) 48 = (a mod 4) * 16.
 Proof.
   intros a Ha. assert (H : forallb (fun a => Z.land (Z.shiftl a 4) 48 =? (a mod 4) * 16) (zrange 256) = true) by (vm_compute; reflexivity).
-  pose proof (forallb_zrange 256 _ H a Ha). cbv beta in *. lia.
+  pose proof (forallb_zrange 256 _ H a Ha) as Hq. clear H. cbv beta in Hq. apply Z.eqb_eq in Hq. exact Hq.
 Qed.
 Lemma dig_b_tail : forall b, byte b -> Z.land (Z.shiftl b 2) 60 = (b mod 16) * 4.
 Proof.
   intros a Ha. assert (H : forallb (fun a => Z.land (Z.shiftl a 2) 60 =? (a mod 16) * 4) (zrange 256) = true) by (vm_compute; reflexivity).
-  pose proof (forallb_zrange 256 _ H a Ha). cbv beta in *. lia.
+  pose proof (forallb_zrange 256 _ H a Ha) as Hq. clear H. cbv beta in Hq. apply Z.eqb_eq in Hq. exact Hq.
 Qed.
 
 Definition dfold (l : list Z) (s : dec_st * list Z) := foldi (fun _ => d64_step) 0 l s.
